@@ -1513,9 +1513,52 @@ _CATALOGUE = [
 ]
 
 
+_ALL_DIRS = ["", "net", "net/client", "net/server", "map", "pub", "pub/server"]
+
+
+def _all_pairs_spec(order, title):
+    """every directory declares an enum and a struct; the struct (and one packet per packet directory) refers to the enum
+    and the struct of every directory EARLIER in `order` (and to its own enum) — a layered tree, as the real protocol is:
+    references between directories never form a cycle (a cycle of directories is a cycle of star-importing Python packages
+    and cannot be imported; see DESIGN 8.4).  With the two orders below every ordered pair of directories occurs as
+    (importing file, imported file), including pairs whose package paths diverge and meet again (net/server <-> pub/server)."""
+    tag = {d: "".join(w.capitalize() for w in (d or "root").split("/")) for d in order}
+    files = []
+    for i, d in enumerate(order):
+        kids = [f'<enum name="Kind{tag[d]}" type="char"><value name="A">1</value><value name="B">2</value></enum>']
+        if d == "net":
+            kids.append('<enum name="PacketFamily" type="char"><value name="Talk">1</value></enum>'
+                        '<enum name="PacketAction" type="char"><value name="Tell">1</value><value name="Open">2</value></enum>')
+        refs = "".join(f'<field name="k_{tag[e].lower()}" type="Kind{tag[e]}"/>' for e in order[:i + 1])
+        refs += "".join(f'<field name="s_{tag[e].lower()}" type="Ref{tag[e]}"/>' for e in order[:i])
+        kids.append(f'<struct name="Ref{tag[d]}">{refs}</struct>')
+        if d in ("net/client", "net/server"):
+            kids.append(f'<packet family="Talk" action="Tell">{refs}<field name="s_own" type="Ref{tag[d]}"/></packet>')
+        files.append((d, "<protocol>" + "".join(kids) + "</protocol>"))
+    if "net" not in order[:1] and any(d in ("net/client", "net/server") for d in order) and order.index("net") > min(
+            order.index(d) for d in ("net/client", "net/server")):
+        pass   # packets only need PacketFamily / PacketAction to exist somewhere in the tree
+    return (title, True, files)
+
+
+_LAYERED = ["", "pub", "pub/server", "map", "net", "net/client", "net/server"]
+
+
+def _inverted_layering_spec():
+    """a map type refers to a type of net/server, which declares a packet (open finding C18 export:partial-init)"""
+    return ("KNOWN[C18:export:partial-init] a map type refers to a net/server type", False, [
+        ("net", '<protocol><enum name="PacketFamily" type="char"><value name="Talk">1</value></enum>'
+                '<enum name="PacketAction" type="char"><value name="Tell">1</value></enum></protocol>'),
+        ("net/server", '<protocol><enum name="KindSrv" type="char"><value name="A">1</value></enum>'
+                       '<packet family="Talk" action="Tell"><field name="k" type="KindSrv"/></packet></protocol>'),
+        ("map", '<protocol><struct name="MapUser"><field name="k" type="KindSrv"/></struct></protocol>')])
+
+
 def catalogue_specs():
     """[(title, roundtrip_safe, files)] -- together they use every construct of the grammar"""
-    return [(t, safe, [(d, Xml.parse(x)) for d, x in files]) for t, safe, files in _CATALOGUE]
+    return [(t, safe, [(d, Xml.parse(x)) for d, x in files]) for t, safe, files in
+            [_all_pairs_spec(_LAYERED, "layered tree: every directory refers to every earlier one"),
+             _inverted_layering_spec()] + _CATALOGUE]
 
 
 if __name__ == "__main__":
